@@ -105,10 +105,6 @@ impl Exec {
             .collect()
     }
 
-    pub fn all_done(&self) -> bool {
-        self.spawner.q.borrow().is_empty() && self.tasks.iter().all(|t| t.fut.is_none())
-    }
-
     /// Drop every remaining future inside its host scope.
     pub fn drop_all(&mut self) {
         self.absorb();
@@ -135,9 +131,6 @@ impl RoundClock {
         for w in self.wakers.borrow_mut().drain(..) {
             w.wake();
         }
-    }
-    pub fn waiters(&self) -> usize {
-        self.wakers.borrow().len()
     }
 }
 
